@@ -497,3 +497,12 @@ MODULE_CONTRACTS["verif_arm64.rs"] = _A64_CONTRACTS
 MODULE_CONTRACTS["verif_a64gen.rs"] = _A64_CONTRACTS
 MODULE_DEPS = {"verif_arm64.rs": ["verif_a64gen.rs"]}
 HARNESSES["c15_abs_modular"]["note"] = "callee contracts: emit_br proved by #[kani::proof_for_contract]; emit_movz/movk_from_address stated by T3 and discharged by the plain harness c15_from_address (same predicate for all inputs) because Kani's contract instrumentation needs ~60 GB on them"
+_FL_SHARED = {"C02.guard.kept.flavours": ["C14", "C12"], "C02.no-early-restore": ["C14"], "C02.order.once.flavours": ["C14", "C12"], "C02.order.reverse.flavours": ["C14"]}
+H("c02_order_async_refake", props=["C02", "C14", "C12"], fns=_INJ_FNS + _ASYNC_FNS, shared=_FL_SHARED, timeout=400,
+  bounded="one history: fake / unchecked re-fake / re-fake of the same async function (K=3), core replaced by a tagging recorder", **_MODS_INJ)
+H("c02_order_sync_flavours", props=["C02", "C12"], fns=_INJ_FNS, shared=_FL_SHARED, timeout=400,
+  bounded="one history: the same target through each of the four synchronous installation calls (K=4), core replaced by tagging recorders", **_MODS_INJ)
+H("c02_order_async_refake2", props=["C02", "C14", "C12"], fns=_INJ_FNS + _ASYNC_FNS, shared=_FL_SHARED, timeout=600,
+  bounded="one history: the same async function faked twice (K=2), core replaced by a tagging recorder", **_MODS_INJ)
+for _h in ("c02_order_async_refake", "c02_order_async_refake2"):
+    HARNESSES[_h]["replay"] = lambda vals, verif: _replay_bin("c14_refake", [], verif)
